@@ -535,10 +535,14 @@ func runC20Race(c *fw.Ctx) {
 		value  []byte
 		lo, hi int64
 		s0, s1 int64
+		t0, t1 int64
+		client int
 		code   uint32
 	}
 	var mu sync.Mutex
 	var recs []rec
+	clock := time.Now() // one monotonic clock for the recorded history (ordering only, never a verdict by itself)
+	var hops []fw.HeightOp
 	var committed int64 = srv.App.LastBlockHeight()
 	// commitSeq is odd while a Commit is in flight: only responses whose whole call lay outside any
 	// Commit window are compared with the sequential reference (the committed stores are only
@@ -555,12 +559,14 @@ func runC20Race(c *fw.Ctx) {
 				i++
 				s0 := atomic.LoadInt64(&commitSeq)
 				lo := atomic.LoadInt64(&committed)
+				t0 := time.Since(clock).Nanoseconds()
 				res := srv.App.Query(abci.RequestQuery{Path: q.path, Data: q.data})
+				t1 := time.Since(clock).Nanoseconds()
 				hi := atomic.LoadInt64(&committed)
 				s1 := atomic.LoadInt64(&commitSeq)
 				mu.Lock()
 				if len(recs) < 200000 {
-					recs = append(recs, rec{q: i - 1, height: res.Height, value: res.Value, lo: lo, hi: hi, s0: s0, s1: s1, code: res.Code})
+					recs = append(recs, rec{q: i - 1, height: res.Height, value: res.Value, lo: lo, hi: hi, s0: s0, s1: s1, t0: t0, t1: t1, client: w, code: res.Code})
 				}
 				mu.Unlock()
 			}
@@ -590,7 +596,10 @@ func runC20Race(c *fw.Ctx) {
 		srv.App.EndBlock(abci.RequestEndBlock{Height: srv.Height})
 		srv.InBlock = false
 		atomic.AddInt64(&commitSeq, 1)
+		ct0 := time.Since(clock).Nanoseconds()
 		hsh := srv.App.Commit().Data
+		ct1 := time.Since(clock).Nanoseconds()
+		hops = append(hops, fw.HeightOp{Client: 99, Write: true, Height: srv.App.LastBlockHeight(), Call: ct0, Return: ct1})
 		atomic.StoreInt64(&committed, srv.App.LastBlockHeight())
 		atomic.AddInt64(&commitSeq, 1)
 		srvHashes = append(srvHashes, hsh)
@@ -630,6 +639,22 @@ func runC20Race(c *fw.Ctx) {
 			break
 		}
 	}
+	// second opinion (porcupine): the heights reported by the concurrent queries and the commits form
+	// a linearizable history of a "committed height" register
+	for i, rc := range recs {
+		if rc.code == 0 && i%7 == 0 && len(hops) < 4000 {
+			hops = append(hops, fw.HeightOp{Client: rc.client, Height: rc.height, Call: rc.t0, Return: rc.t1})
+		}
+	}
+	switch fw.CheckHeightRegister(hops, 40*time.Second) {
+	case "ok":
+		c.Count("porcupine_ok", 1)
+	case "illegal":
+		c.Violate("served-heights-not-linearizable", "porcupine", "the history of %d commits/queries (height served per query) is not linearizable as a register", len(hops))
+	default:
+		c.Count("porcupine_timeout_inconclusive", 1)
+	}
+	c.Count("porcupine_ops", int64(len(hops)))
 	c.Distinct(fmt.Sprintf("race/heights-served=%d", len(hs)/10*10))
 	c.Distinct("race/concurrent-serving")
 	c.Nontrivial()
